@@ -59,7 +59,7 @@ def facts(state):
 
 def fluent_map(state):
     """printed fluent (name + argument list) -> value object"""
-    return {lib.norm(f.untyped_representation): f.value for f in state.state_fluents.values()}
+    return {lib.fluent_name(f): f.value for f in state.state_fluents.values()}
 
 
 def _val(v):
